@@ -43,7 +43,7 @@ type op struct {
 func history(kind string) []op {
 	if kind == "edge" {
 		const MiB = 1 << 20
-		return []op{{0, 0, MiB - 125 - 1}, {1, 0, MiB - 125}, {2, 0, MiB - 125 + 1}, {0, 1, MiB - 191}, {1, 1, MiB - 191 - 1}, {3, 0, 10}, {2, 1, 7}, {100, 0, 11}, {103, 0, 12}}
+		return []op{{0, 0, MiB - 125 - 1}, {1, 0, MiB - 125}, {2, 0, MiB - 125 + 1}, {0, 1, MiB - 191}, {1, 1, MiB - 191 - 1}, {3, 0, 10}, {2, 1, 7}, {100, 0, 11}, {103, 0, 12}, {200, 0, 13}, {201, 0, 14}, {202, 0, 15}}
 	}
 	bulk := kind == "bulk"
 	h := []op{{0, 0, 1}, {1, 0, 900}, {2, 0, 4096}, {0, 1, 1}, {3, 0, 64}, {1, 1, 900}, {4, 0, 2000}, {0, 2, 5}}
@@ -76,6 +76,17 @@ func mkVAA(o op) *vaa.VAA {
 func idOf(i int) vaa.VAAID {
 	var a vaa.Address
 	a[31] = 0x42
+	if i >= 200 {
+		// ids 200+k: one emitter (chain 1, address ..04) sending the SAME sequence k/2 to target chain 2 (k even)
+		// and 255 (k odd): two identifiers, both must come back from the point lookup and from the batch lookup
+		var g vaa.Address
+		g[31] = 4
+		t := vaa.ChainID(2)
+		if i%2 == 1 {
+			t = 255
+		}
+		return vaa.VAAID{EmitterChain: 1, EmitterAddress: g, TargetChain: t, Sequence: uint64((i - 200) / 2)}
+	}
 	if i >= 100 {
 		// ids 100+k: the same emitter and sequence k, target chain 258 = 2 + 256 (testnet chain ids are above 255:
 		// another identifier, another key, whatever the low byte)
@@ -184,6 +195,30 @@ func verifier(dir string, bulk string) {
 				res.Vals[fmt.Sprint(o.ID)] = fingerprint(b)
 			}
 		}
+		// the store's second lookup path: the batch lookup by emitter and sequences must return every stored VAA of
+		// that emitter with one of the asked sequences (the same sequence may exist for several target chains)
+		if bulk == "edge" {
+			var g vaa.Address
+			g[31] = 4
+			if got, err := d.GetGovernanceVAABatch(1, g, []uint64{0, 1}); err != nil {
+				res.Errs["batch"] = err.Error()
+			} else {
+				for _, gv := range got {
+					for _, o := range history(bulk) {
+						if vid := idOf(o.ID); o.ID >= 200 && vid.TargetChain == gv.TargetChain && vid.Sequence == gv.Sequence {
+							res.Vals[fmt.Sprintf("batch:%d", o.ID)] = fingerprint(gv.VaaBytes)
+						}
+					}
+				}
+				for _, o := range history(bulk) {
+					if o.ID >= 200 {
+						if _, ok := res.Vals[fmt.Sprintf("batch:%d", o.ID)]; !ok {
+							res.Vals[fmt.Sprintf("batch:%d", o.ID)] = ""
+						}
+					}
+				}
+			}
+		}
 		d.Close()
 	}
 	json.NewEncoder(os.Stdout).Encode(res)
@@ -237,7 +272,8 @@ func check(self, dir string, bulk string, acked int, inflight []int, sc scenario
 	}
 	h := history(bulk)
 	for idStr, got := range d.Vals {
-		id, _ := strconv.Atoi(idStr)
+		viaBatch := strings.HasPrefix(idStr, "batch:")
+		id, _ := strconv.Atoi(strings.TrimPrefix(idStr, "batch:"))
 		want := ""  // last acknowledged
 		for k := 0; k < acked; k++ {
 			if h[k].ID == id {
@@ -252,6 +288,8 @@ func check(self, dir string, bulk string, acked int, inflight []int, sc scenario
 		}
 		if !okVals[got] {
 			switch {
+			case got == "" && want != "" && viaBatch:
+				r.Violation("an acknowledged VAA is not returned by the batch lookup (point lookup is judged separately)", fmt.Sprintf("id %d", id), sc)
 			case got == "" && want != "":
 				r.Violation("an acknowledged VAA is not found after the kill", fmt.Sprintf("id %d", id), sc)
 			case want != "" && isSomeVersion(h, id, got):
